@@ -235,6 +235,7 @@ func (ex *Explorer) runPath(prefix []int, ss *solverSet) (res *PathResult) {
 			i.runtimeErrorString = t.Object().Type()
 		}
 	}
+	p.interp = i
 	i.sched = newScheduler(i)
 	res = &PathResult{}
 	defer func() {
@@ -448,6 +449,16 @@ func (i *interpreter) decodeModel(m map[string]string) map[string]ModelVal {
 			out[name] = ModelVal{"bool", txt}
 		case SStr:
 			s, _ := decodeSMTString(txt)
+			if p.facts["class|asciiws||"+name+"|"] {
+				// model projection for class strings whose constraint was not asserted
+				b := []byte(s)
+				for k := range b {
+					if !(b[k] >= 9 && b[k] <= 13 || b[k] == ' ') {
+						b[k] = ' '
+					}
+				}
+				s = string(b)
+			}
 			out[name] = ModelVal{"str", fmt.Sprintf("%x", s)}
 		}
 	}
